@@ -46,6 +46,7 @@ func cmdVerify(args []string) int {
 	timeout := fs.Int("timeout", 10, "solver timeout (s)")
 	dump := fs.String("dump", "", "directory for SMT files")
 	slow := fs.Bool("slow", false, "include thorough-only obligations")
+	untrust := fs.Bool("untrust", false, "experiment: verify the bodies of functions marked trusted as well")
 	fs.Parse(args)
 	dir := *dump
 	if dir == "" {
@@ -85,7 +86,7 @@ func cmdVerify(args []string) int {
 			if len(want) > 0 && !want[key] && !want[fc.Fn] {
 				continue
 			}
-			if fc.Trusted {
+			if fc.Trusted && !*untrust {
 				continue
 			}
 			r := genFunction(u, pi, fc)
